@@ -17,6 +17,23 @@ PANIC_RX = r"\b(?:unreachable|panic|todo|unimplemented|assert|assert_eq|assert_n
 KEYWORDS = {"self", "Self", "crate", "super", "vec"}
 
 
+def _split_top(s):
+    parts, depth, cur = [], 0, ""
+    for ch in s:
+        if ch in "([{":
+            depth += 1
+        elif ch in ")]}":
+            depth -= 1
+        if ch == "," and depth == 0:
+            parts.append(cur)
+            cur = ""
+        else:
+            cur += ch
+    if cur.strip():
+        parts.append(cur)
+    return parts
+
+
 def norm(s):
     return re.sub(r"\s+", "", s)
 
@@ -26,7 +43,7 @@ def var_of(key):
 
 
 class GuardSlicer(Slicer):
-    def __init__(self, src, fn_item, allowed_panic=0, allowed_index=()):
+    def __init__(self, src, fn_item, allowed_panic=0, allowed_index=(), panic_sites=True, arity_fn=None):
         self.fn_text = fn_item.text
         keys = {}
         for m in re.finditer(KEY_RX, self.fn_text):
@@ -46,7 +63,10 @@ class GuardSlicer(Slicer):
             alts.append(r"(?<![\w.])(?P<mkey>%s)\s*(?:\.\s*(?:%s)\s*\(|=(?![=>]))" % (kalt, MUTATORS))
             alts.append(r"&\s*mut\s+(?P<bkey>%s)\b(?!\s*[.\[])" % kalt)
             alts.append(r"\|(?P<closure>[^|\n]*)\|")
-        alts.append(r"(?P<panic>%s)" % PANIC_RX)
+        if arity_fn and keys:
+            # `arity_fn(name, receiver, pos, N, &positions, &values)?`: returns Err unless both have N elements
+            alts.insert(0, r"\b%s\s*\((?P<arity_args>[^;]*?)\)\s*\?" % re.escape(arity_fn))
+        alts.append(r"(?P<panic>%s)" % (PANIC_RX if panic_sites else r"\bno_such_zz\b"))
         Slicer.__init__(self, src, "|".join(alts), flag_rx=r"\bno_such_flag_zz\b")
         self.ret = "return;"
         self.loop_may_exit = True
@@ -62,6 +82,17 @@ class GuardSlicer(Slicer):
 
     def render_effect(self, m):
         gd = m.groupdict()
+        if gd.get("arity_args"):
+            parts = [x.strip() for x in _split_top(gd["arity_args"])]
+            if len(parts) >= 6 and re.fullmatch(r"\d+", parts[3]):
+                out = []
+                for a in parts[4:6]:
+                    k = norm(a.lstrip("&"))
+                    if k in self.keys:
+                        out.append("if %s != %s { %s }" % (self.keys[k], parts[3], self.ret))
+                self.n_len_tests += len(out)
+                return " ".join(out) if out else "if nondet() { %s }" % self.ret
+            return "if nondet() { %s }" % self.ret
         if gd.get("ikey"):
             k = norm(gd["ikey"])
             site = norm(m.group(0))
@@ -212,6 +243,19 @@ class GuardSlicer(Slicer):
         return Slicer.control(self, k, b, indent)
 
     def emit_arms(self, arms, k, indent):
+        scrut = norm(getattr(self, "scrutinee", ""))
+        lk = [key for key in self.keys if scrut in (key + ".len()", "(" + key + ").len()")]
+        pats = [norm(self.text(p, arrow)) for (_k, _a, _b, arrow, p) in arms]
+        if lk and arms and all(re.fullmatch(r"\d+(\|\d+)*|_|\d+\.\.=?\d*", p) for p in pats) and pats[-1] == "_":
+            # `match V.len() { 0 => .., 1 => .., _ => .. }`: a real match on the tracked length
+            self.n_len_tests += 1
+            self.emit("%smatch %s {" % (indent, self.keys[lk[0]]), k)
+            for (kind, a2, b2, arrow, p), pt in zip(arms, pats):
+                self.emit("%s    %s => {" % (indent, pt.replace("|", " | ")), arrow)
+                self.block(a2, b2, indent + "        ")
+                self.emit("%s    }" % indent, b2 - 1 if b2 > 0 else arrow)
+            self.emit("%s}" % indent, k)
+            return
         self.emit("%smatch nondet_u8() {" % indent, k)
         for i, (kind, a2, b2, arrow, p) in enumerate(arms):
             pat = "_" if i == len(arms) - 1 else str(i)
@@ -266,9 +310,9 @@ pub fn windows_len(n: usize) -> (r: usize) ensures r == n { unimplemented!() }
 """
 
 
-def slice_function(src, fn_item, gname, allowed_panic=0, allowed_index=()):
+def slice_function(src, fn_item, gname, allowed_panic=0, allowed_index=(), panic_sites=True, arity_fn=None):
     """-> (lines [(text, repo_line)], slicer) for the body of fn_item, or None if it has no index / panic site"""
-    sl = GuardSlicer(src, fn_item, allowed_panic, allowed_index)
+    sl = GuardSlicer(src, fn_item, allowed_panic, allowed_index, panic_sites, arity_fn)
     toks = sl.toks
     idx = [k for k, t in enumerate(toks) if fn_item.start <= t.start < fn_item.end]
     # body: the `{` at depth 0 after the signature
